@@ -179,7 +179,7 @@ func genEvent(r *kit.Rng, tn, pn, pool []string) string {
 	}
 	var fs []field
 	add := func(k, t, v string) { fs = append(fs, field{k, t, v}) }
-	switch r.Pick(16, 34, 10, 13, 3, 4, 4, 7, 5, 4) { // how (whether) the event carries a trace id
+	switch r.Pick(12, 36, 11, 14, 3, 4, 4, 7, 5, 4) { // how (whether) the event carries a trace id
 	case 0:
 	case 1:
 		add(tname(0), "s", tidv)
@@ -284,7 +284,7 @@ func genEvent(r *kit.Rng, tn, pn, pool []string) string {
 		nsec = r.Intn(1000000000)
 	}
 	rt := []string{"in", "peer"}[r.Intn(2)]
-	st := []string{"off", "skip", "drop", "keep"}[r.Pick(52, 6, 16, 26)]
+	st := []string{"off", "skip", "drop", "keep"}[r.Pick(58, 6, 13, 23)]
 	b2 := func(p int) string {
 		if r.Chance(p) {
 			return "1"
@@ -301,7 +301,7 @@ func (comp) Gen(r *kit.Rng, maxLen int, tier string) kit.Case {
 	self := addrs[0]
 	pool := []string{"t0", "t1", "t2", "t3", "t4", "t5", "0af7651916cd43dd8448eb211c80319c", "id with space", "té"}
 	tn := [][]string{{"trace.trace_id", "traceId"}, {"trace.trace_id", "traceId"}, {"trace.trace_id", "traceId"},
-		{"traceId", "trace.trace_id"}, {"trace.trace_id"}, nil}[r.Intn(6)]
+		{"traceId", "trace.trace_id"}, {"trace.trace_id"}, nil}[r.Pick(3, 3, 3, 3, 2, 1)]
 	pn := [][]string{{"trace.parent_id", "parentId"}, {"trace.parent_id", "parentId"}, {"trace.parent_id"}, nil}[r.Intn(4)]
 	var h string
 	if r.Chance(50) {
